@@ -2,6 +2,15 @@
 #[verifier::external_type_specification]
 #[verifier::external_body]
 pub struct ExIoError(std::io::Error);
+// std::io::ErrorKind is a plain field-less enum: taken as is (patterns and `==` on its variants are read)
+#[verifier::external_type_specification]
+pub struct ExErrorKind(std::io::ErrorKind);
+/// the kind an I/O error carries (ASSUMED: `kind()` is a pure accessor)
+pub uninterp spec fn io_kind(e: &std::io::Error) -> std::io::ErrorKind;
+pub assume_specification[std::io::Error::kind](e: &std::io::Error) -> (r: std::io::ErrorKind)
+    ensures r == io_kind(e);
+pub assume_specification[<std::io::ErrorKind as PartialEq>::eq](a: &std::io::ErrorKind, b: &std::io::ErrorKind) -> (r: bool)
+    ensures r == (*a == *b);
 
 //@ item src/codec/error.rs :: enum CodecError
 //@ end
